@@ -42,6 +42,7 @@ func runC01(r *engine.Run) {
 	r.Rule("DOM-valueat", "in insertAtNode a value is stored on a newly built branch only where the key it belongs to ends there: the payload where matching prefix == path tested true, the split leaf's value where matching prefix == leaf path tested true or the leaf's path is empty")
 	r.Rule("WHO-tombstones", "see C03: no lookup of the layered store consults its delete tombstones (a lookup that answered from them would hide a node the level, or the level below, still holds)")
 	r.Rule("CLONE-deep", "see C07: Clone() of every node type is a deep copy (the codec round trip), never a value that shares path/key/value memory with the receiver - FRESH-node treats Clone() results as fresh, and an in-place append onto a shallow copy writes into the store's object")
+	r.Rule("FRESH-pathbuf", "in the exported Insert no path argument handed to the trie's own unexported methods is the caller's path parameter or a slice of it: the walk builds leaf and extension nodes around sub-slices of the path it is given, and those nodes stay in the store, the cache and the change collector, so the path is copied at the API boundary like the value is - a caller that refills one key buffer per entry must not rewrite the paths of entries it stored before")
 	r.Rule("WHO-limit", "see C17: the value size limit MPTMaxAllowableNodeSize is applied to the inserted value only (in Insert or its guard helper): a value Insert accepted gives a node that every store and decoder takes whole - a decoder that cuts its input at the same constant loses the tail of a node whose value is close to the limit, and the lookup returns a truncated or no value")
 	r.Rule("LOCK-mpt", "see C16: root, the stores' maps and level links and the collector's maps are accessed only with their owner's mutex held in the required mode")
 	r.Rule("ORDER-critical", "see C16: Insert, Delete, MergeChanges and MergeDB are one critical section each")
@@ -72,6 +73,7 @@ func runC01(r *engine.Run) {
 	cloneDeep(r)
 	whoLimit(r, "WHO-limit")
 	lockWalk(r, mptLockDiscipline(r))
+	freshPathBuf(r, "FRESH-pathbuf")
 }
 
 var nodeKinds = []string{"ExtensionNode", "FullNode", "LeafNode"}
